@@ -251,7 +251,8 @@ class Run:
     pass
 
 
-FINE_FILES = ('lightstreamer_adapter/server.py', 'lightstreamer_adapter/subscription.py')
+FINE_FILES = ('lightstreamer_adapter/server.py', 'lightstreamer_adapter/subscription.py', 'lightstreamer_adapter/protocol.py',
+              'lightstreamer_adapter/data_protocol.py', 'lightstreamer_adapter/metadata_protocol.py')
 
 
 def run(sc, chooser, max_steps=8000, eager=(), fine=False, fine_seed=0):
